@@ -372,9 +372,19 @@ func CheckC10(c *Ctx) {
 	if get := c.fn("asset", "InMemoryRepository", "Get"); get != nil {
 		// map lookup failure returns a non-nil error
 		good := false
+		ginfo := get.Pkg.TypesInfo
+		found := mapFoundVars(c, ginfo, get.Decl.Body, 1)
 		ast.Inspect(get.Decl.Body, func(nd ast.Node) bool {
 			is, ok := nd.(*ast.IfStmt)
-			if !ok || exprString(is.Cond) != "!ok" {
+			if !ok {
+				return true
+			}
+			u, isNot := ast.Unparen(is.Cond).(*ast.UnaryExpr)
+			if !isNot || u.Op != token.NOT {
+				return true
+			}
+			id, isID := ast.Unparen(u.X).(*ast.Ident)
+			if !isID || !found[ginfo.ObjectOf(id)] {
 				return true
 			}
 			if r, ok := is.Body.List[len(is.Body.List)-1].(*ast.ReturnStmt); ok && len(r.Results) == 2 {
@@ -532,22 +542,18 @@ func (c *Ctx) getSinceFilter(fi *load.FuncInfo) {
 				return true
 			}
 		}
-		if !ok || len(fl.Body.List) != 1 {
-			c.violate("repository/getsince", site, "filter shape", call.Pos(), "the GetSince filter is not a single-expression closure (undecided, fails closed)")
+		if !ok {
+			c.violate("repository/getsince", site, "filter shape", call.Pos(), "the GetSince filter is not a function literal (undecided, fails closed)")
 			return true
 		}
-		ret, ok := fl.Body.List[0].(*ast.ReturnStmt)
-		if !ok || len(ret.Results) != 1 {
-			c.violate("repository/getsince", site, "filter shape", call.Pos(), "the GetSince filter is not a single-expression closure (undecided, fails closed)")
-			return true
-		}
+		ret := fl.Body
 		run.Count("getsince_filters", 1)
 		want := map[int]bool{-1: false, 0: true, 1: true}
 		names := map[int]string{-1: "before", 0: "on", 1: "after"}
 		for _, ord := range []int{-1, 0, 1} {
-			v, ok := timeOrdEval(info, ret.Results[0], bound, ord)
+			v, ok := boolBodyEval(info, fl.Body.List, bound, ord)
 			if !ok {
-				c.violate("repository/getsince", site, "undecided", ret.Pos(), "the filter uses something other than Equal/After/Before of the snapshot date against the bound (undecided, fails closed): "+exprString(ret.Results[0]))
+				c.violate("repository/getsince", site, "undecided", ret.Pos(), "the filter uses something other than Equal/After/Before of the snapshot date against the bound (undecided, fails closed)")
 				break
 			}
 			run.Oblige(v == want[ord])
@@ -792,4 +798,110 @@ func (c *Ctx) appendExtends(fi *load.FuncInfo) {
 	_ = defs
 	run.Count("storage_writes", n)
 	run.Floor("storage_writes", 1)
+}
+
+// mapFoundVars: the boolean variables in body that say whether a map lookup found its key:
+// `v, ok := m[k]`, or the second result of an unexported method of the same package that returns
+// such a pair (depth levels of indirection).
+func mapFoundVars(c *Ctx, info *types.Info, body *ast.BlockStmt, depth int) map[types.Object]bool {
+	out := map[types.Object]bool{}
+	ast.Inspect(body, func(n ast.Node) bool {
+		as, ok := n.(*ast.AssignStmt)
+		if !ok || len(as.Lhs) != 2 || len(as.Rhs) != 1 {
+			return true
+		}
+		okID, isID := as.Lhs[1].(*ast.Ident)
+		if !isID {
+			return true
+		}
+		switch r := as.Rhs[0].(type) {
+		case *ast.IndexExpr:
+			if t := info.TypeOf(r.X); t != nil {
+				if _, isMap := t.Underlying().(*types.Map); isMap {
+					out[info.ObjectOf(okID)] = true
+				}
+			}
+		case *ast.CallExpr:
+			if depth <= 0 {
+				return true
+			}
+			fn := callee(info, r)
+			if fn == nil || fn.Exported() {
+				return true
+			}
+			dfi := c.P.Decls[fn.Origin()]
+			if dfi == nil || dfi.Decl.Body == nil {
+				return true
+			}
+			inner := mapFoundVars(c, dfi.Pkg.TypesInfo, dfi.Decl.Body, depth-1)
+			returnsFound := false
+			ast.Inspect(dfi.Decl.Body, func(m ast.Node) bool {
+				if ret, isRet := m.(*ast.ReturnStmt); isRet && len(ret.Results) == 2 {
+					if rid, isR := ret.Results[1].(*ast.Ident); isR && inner[dfi.Pkg.TypesInfo.ObjectOf(rid)] {
+						returnsFound = true
+					}
+				}
+				return true
+			})
+			if returnsFound {
+				out[info.ObjectOf(okID)] = true
+			}
+		}
+		return true
+	})
+	return out
+}
+
+// boolBodyEval evaluates a predicate body made of `if c { return b }` statements and a final
+// return for one ordering of the snapshot date against the bound.
+func boolBodyEval(info *types.Info, stmts []ast.Stmt, bound types.Object, ord int) (bool, bool) {
+	for _, s := range stmts {
+		switch x := s.(type) {
+		case *ast.ReturnStmt:
+			if len(x.Results) != 1 {
+				return false, false
+			}
+			return boolExprEval(info, x.Results[0], bound, ord)
+		case *ast.IfStmt:
+			if x.Init != nil {
+				return false, false
+			}
+			c, ok := boolExprEval(info, x.Cond, bound, ord)
+			if !ok {
+				return false, false
+			}
+			if c {
+				if v, ok := boolBodyEval(info, x.Body.List, bound, ord); ok {
+					return v, true
+				}
+				return false, false
+			}
+			switch e := x.Else.(type) {
+			case *ast.BlockStmt:
+				if v, ok := boolBodyEval(info, e.List, bound, ord); ok {
+					return v, true
+				}
+				return false, false
+			case *ast.IfStmt:
+				if v, ok := boolBodyEval(info, []ast.Stmt{e}, bound, ord); ok {
+					return v, true
+				}
+			}
+		default:
+			return false, false
+		}
+	}
+	return false, false
+}
+
+func boolExprEval(info *types.Info, e ast.Expr, bound types.Object, ord int) (bool, bool) {
+	if id, ok := ast.Unparen(e).(*ast.Ident); ok {
+		switch id.Name {
+		case "true":
+			return true, true
+		case "false":
+			return false, true
+		}
+	}
+	return timeOrdEval(info, e, bound, ord)
 }
